@@ -215,6 +215,17 @@ def gen_case(rng, tier, direction=None, feats=None):
         case['lateLink'] = True
         if not case.get('prior'):
             case['prior'] = 'ok'
+    if feats.get('dust') and rng.random() < 0.05:
+        # float dust (C04 only): a remainder of 2^-40 units - all float arithmetic stays exact, but the remainder's share of a day is far
+        # below the microsecond the library's dates can resolve (known finding KF-F1-C04) - or of 2^-22 units, which must be handled
+        cands = [i for i in range(n) if i not in has_child and not tasks[i]['ms'] and tasks[i]['end'] is None]
+        if cands:
+            i = rng.choice(cands)
+            tiny = Fraction(1, 2 ** rng.choice([40, 40, 22]))      # (2^-22 units: a share of a few milliseconds - small, but a datetime shows it)
+            k = rng.randrange(3)
+            tasks[i]['est'], tasks[i]['spent'] = [(str(8 + tiny), None), ('16', str(16 - tiny)), (str(tiny), None)][k]
+            case['floats'] = True
+            case['dust'] = True
     # keep only the links the graph API accepts (the case stays replayable: rejected links are dropped)
     case['links'] = build(case)[3]
     if (case['links'][:-1] if case.get('lateLink') else case['links']) and rng.random() < 0.3:
@@ -247,7 +258,7 @@ def gen_case(rng, tier, direction=None, feats=None):
 
 def random_case(prop, rng, tier):
     d = {'C02': 'fwd', 'C08': 'fwd', 'C06': 'fwd', 'C09': 'bwd'}.get(prop)
-    return gen_case(rng, tier, d)
+    return gen_case(rng, tier, d, {'dust': prop == 'C04'})
 
 
 # ------------------------------------------------------------------------------------ building the real objects
@@ -401,6 +412,15 @@ def us_or_none(d):
     return None if d is None else to_us(d)
 
 
+def _dust(r):
+    """a usage row whose share of its day is below one microsecond: the library's dates (datetime) cannot show it"""
+    try:
+        cap = r.resource.get_available_units(r.date)
+        return bool(cap) and 0 < Fraction(r.units) / Fraction(cap) * 86400 * 10 ** 6 < 1
+    except Exception:  # noqa
+        return False
+
+
 def run_calc(case, w, objs, clock=None, scheduler=None, main=False, between=None):
     """one calc under the scripted clock; returns (obs dict, scheduler object).  `main`: the case's own run - the scheduler is built with
     the resources' earlier calendars (if any), used once (`prior`), then `between()` makes the late changes (calendars, a held link)"""
@@ -459,6 +479,7 @@ def run_calc(case, w, objs, clock=None, scheduler=None, main=False, between=None
            'reserved': [[key_of(r.resource.name), to_us(r.date) // DAY_US, frac_str(sch.resource_usage.reserved(r.resource, r.date))]
                         for r in rows[:6]],
            'rows_midnight': all(r.date == datetime(r.date.year, r.date.month, r.date.day) for r in rows),
+           'dust': any(_dust(r) for r in rows),
            'separate': s is not w and not (set(id(t) for t in s.tasks) & set(id(o) for o in objs))}
     return obs, scheduler
 
@@ -654,6 +675,7 @@ HYP_OF = {
     'C08': {'c08NoIdle': ['noSummaryLinks', 'outsideLeaves'], 'c08Encode': [], 'c08Order': [], 'c08Removal': ['noSummaryLinks']},
     'C09': {'c09Deadline': [], 'c09Deps': ['noSummaryLinks'], 'c09LatePacked': ['noSummaryLinks'], 'c09Encode': ['noSummaryLinks']},
     'C06': {'clockIndep': ['clockHyp']},
+    'C04': {'c04Window': ['noDust'], 'c04EndLastDay': ['noDust'], 'c04StartFirstDay': ['noDust'], 'c04BwdStartFirstDay': ['noDust']},
 }
 # domain restrictions of the statements themselves (not findings): cases outside are not judged
 CLAUSE_DOMAIN = {
@@ -700,6 +722,11 @@ def judge(prop, case, rec, out):
     reused = bool(case.get('prior'))
     mp, ip = project(prop, out['model'], reused), project(prop, obs, reused)
     eq = mp == ip
+    dust = bool(obs.get('dust'))
+    if dust or case.get('dust'):
+        # a case with a 2^-40 remainder: day shares are not whole microseconds, so the exact-rational model cannot agree with dates that
+        # are rounded to microseconds - only the monitors count (C04); the other properties do not judge such a case
+        eq = True
     if not eq:
         info['mismatch'] = {'model': out['model'] if out['model']['out'] != 'ok' else {'tasks': canon(out['model']['tasks']), 'rows': canon(out['model']['rows']), 'resources': out['model']['resources']},
                             'impl': {k: obs.get(k) for k in ('out', 'tasks', 'rows', 'resources')}}
@@ -738,7 +765,7 @@ def judge(prop, case, rec, out):
                 mon['clockIndep'] = all(rec['clock_indep'])
     if prop == 'C08' and 'removal_same' in rec:
         mon['c08Removal'] = rec['removal_same']
-    in_domain = all(out['hyp'][h] for h in DOMAIN_OF.get(prop, []))
+    in_domain = all(out['hyp'][h] for h in DOMAIN_OF.get(prop, [])) and not ((dust or case.get('dust')) and prop != 'C04')
     if not in_domain:
         mon = {k: True for k in mon}
     for cl, hs in CLAUSE_DOMAIN.items():
@@ -746,6 +773,7 @@ def judge(prop, case, rec, out):
             mon[cl] = True            # the statement does not claim this clause for this input
     hyps_all = dict(out['hyp'])
     hyps_all['clockHyp'] = rec.get('clock_hyp', True)
+    hyps_all['noDust'] = not dust
     hyp = {}
     sig = None
     failed = sorted(k for k, v in mon.items() if not v)
